@@ -168,7 +168,7 @@ def run(ctx):
                        "should_add, apply_retention, snapshot composition, compute_delta / compute_delta_since + is_significant on histories with chronological, equal, "
                        "backwards and random timestamps, cut-offs placed on entries, huge values; each case through sgv-trend in the debug and the release profile "
                        "(evaluations counts both) vs the extracted Coq model and vs an independent unbounded-integer spec. CLI level: SGV_NOW-driven sequences of snapshot / check "
-                       "(auto_snapshot_on_check, --files, --diff, fail-fast) / stats summary|trend|history|files|report; after every step history.json is compared with the model's history "
+                       "(auto_snapshot_on_check, --files, --diff, --staged, --warn-only --fail-fast with most files over the limit) / stats summary|trend|history|files|report; after every step history.json is compared with the model's history "
                        "and the spec; read-only commands must leave its bytes unchanged. non-trivial = library cases whose model answer is not the default (NONE / SKIP / nothing removed / add allowed) "
                        "+ CLI steps that append, drop or select an entry")
     ctx.cov["input_distribution"] = {"library": hist, "cli": cli["distribution"]}
@@ -196,9 +196,11 @@ def run(ctx):
     for v in cli["violations"][:4]:
         ctx.violation(v)
         reported += 1
-    for (klass, what) in cli["known"]:
+    for (klass, what, rep) in cli["known"]:
         if not ctx.known(klass, what):
-            ctx.violation({"kind": "property-oracle", "level": "cli", "class_not_listed": klass, "what": what})
+            # the disagreement falls in a class that is not (or no longer) a listed finding: a violation, with its input
+            if reported < 6:
+                ctx.violation(dict(rep, class_not_listed=klass, replay_cmd="python3 tools/vp.py check C15 --replay <this file>"))
             reported += 1
     if not reported and (mism or cli["mismatches"]):
         # model != implementation but no failing input yet: search harder (fresh, larger batches; oracle only)
